@@ -408,19 +408,20 @@ func (p *Polygon) initLoopProperties() {
 func (p *Polygon) initEdgesAndIndex() {
 	p.numEdges = 0
 	p.cumulativeEdges = nil
-	if p.IsFull() {
-		return
-	}
-	const maxLinearSearchLoops = 12 // Based on benchmarks.
-	if len(p.loops) > maxLinearSearchLoops {
-		p.cumulativeEdges = make([]int, 0, len(p.loops))
-	}
-
-	for _, l := range p.loops {
-		if p.cumulativeEdges != nil {
-			p.cumulativeEdges = append(p.cumulativeEdges, p.numEdges)
+	// The full polygon has no edges, but like every other polygon it needs an
+	// index (with itself as the only shape) for the containment methods.
+	if !p.IsFull() {
+		const maxLinearSearchLoops = 12 // Based on benchmarks.
+		if len(p.loops) > maxLinearSearchLoops {
+			p.cumulativeEdges = make([]int, 0, len(p.loops))
 		}
-		p.numEdges += len(l.vertices)
+
+		for _, l := range p.loops {
+			if p.cumulativeEdges != nil {
+				p.cumulativeEdges = append(p.cumulativeEdges, p.numEdges)
+			}
+			p.numEdges += len(l.vertices)
+		}
 	}
 
 	p.index = NewShapeIndex()
